@@ -137,7 +137,10 @@ def finish(prop: str, tier: str, results: list[RuleResult], explanation: str,
             else:
                 violations.append(f)
 
-    replay_dir = os.path.join(VERIF, 'replay')
+    # runs against a scratch copy (VERIF_REPO) must not touch the committed evidence
+    scratch = os.environ.get('VERIF_REPO', '/repo') != '/repo'
+    out_root = os.path.join('/tmp', 'verif-scratch-out') if scratch else VERIF
+    replay_dir = os.path.join(out_root, 'replay')
     os.makedirs(replay_dir, exist_ok=True)
     for f in known_hit:
         print(f'KNOWN-FINDING: property={prop} {known_by_key[f.key].get("what", f.message)} '
@@ -194,8 +197,8 @@ def finish(prop: str, tier: str, results: list[RuleResult], explanation: str,
         'wall_s': round(time.time() - t0, 3),
         'violations': len(violations),
     }
-    os.makedirs(os.path.join(VERIF, 'evidence'), exist_ok=True)
-    with open(os.path.join(VERIF, 'evidence', f'{prop}.json'), 'w') as fp:
+    os.makedirs(os.path.join(out_root, 'evidence'), exist_ok=True)
+    with open(os.path.join(out_root, 'evidence', f'{prop}.json'), 'w') as fp:
         json.dump(evidence, fp, indent=1, default=str)
 
     tot_inst = sum(len(r.instances) for r in results)
